@@ -210,6 +210,8 @@ def tasks_for(props=None, targets=None):
                 continue
             if getattr(c.holder, "abstract_only", False):
                 continue
+            if getattr(c.holder, "thorough_only", False) and os.environ.get("VERIF_TIER_EFFECTIVE", "quick") != "thorough":
+                continue
             out.append((c.module, tgt, i, list(props) if props else None))
     return out
 
